@@ -61,6 +61,7 @@ type R struct {
 	outcomes map[string]int64
 	deadline time.Time
 	cut      atomic.Bool
+	partial  atomic.Bool
 }
 
 // Start parses the command line: <quick|thorough> or --replay <file>.
@@ -130,6 +131,18 @@ func (r *R) OutOfTime() bool {
 	return false
 }
 func (r *R) Cut() bool { return r.cut.Load() }
+
+// Incomplete records that part of the stated space was not explored (time budget, an execution
+// the explorer could not control): the run ends with exhaustive:false, never with an alarm.
+func (r *R) Incomplete(why string) {
+	r.partial.Store(true) // other parts of the run go on
+	r.mu.Lock()
+	defer r.mu.Unlock()
+	l, _ := r.extra["incomplete_because"].([]string)
+	if len(l) < 8 {
+		r.extra["incomplete_because"] = append(l, why)
+	}
+}
 
 func (r *R) Eval(n int64)       { r.evals.Add(n) }
 func (r *R) Nontrivial(n int64) { r.nontrivial.Add(n) }
@@ -211,7 +224,7 @@ func loadFindings(prop string) []finding {
 // Finish attributes failures, writes replay files and the evidence file,
 // prints the verdict lines and exits.
 func (r *R) Finish(rule string, exhaustive bool) {
-	if r.cut.Load() {
+	if r.cut.Load() || r.partial.Load() {
 		exhaustive = false
 	}
 	known := map[string]finding{}
